@@ -48,6 +48,10 @@ def _eval_fn(P, fn, args):
 
 def run(ctx):
     P = ctx.P
+    ctx.clause("C06.10 what a decoding loop reads through a pointer cursor it steps over before its next iteration (no group, run or value is decoded twice)")
+    from ..rules import loopcursor
+    nlc = loopcursor.check(ctx, [f for f in P.lib_functions() if P.rel(f.file).startswith(("src/encoding/", "src/compression/", "src/thrift/", "src/core/", "src/reader/"))])
+    ctx.floor("C06 reads through a loop's pointer cursor", nlc, 20)
     ctx.clause("C06.1 unimplemented codecs/encodings/types/page types are rejected")
     ctx.clause("C06.2 level and index bit widths")
     ctx.clause("C06.4 enum tags / wire-type tags equal the specifications")
